@@ -695,10 +695,11 @@ func stringJoinFunc(q, arg1 query) func(query, iterator) interface{} {
 			}
 		}
 
-		q = functionArgs(q)
-		test := predicate(q)
+		// q is captured by every copy of this closure: work on a local copy.
+		input := functionArgs(q)
+		test := predicate(input)
 		var parts []string
-		switch v := q.Evaluate(t).(type) {
+		switch v := input.Evaluate(t).(type) {
 		case string:
 			return v
 		case query:
